@@ -22,7 +22,7 @@ CMP_TXT = {'eq': '==', 'neq': '!=', 'gt': '>', 'lt': '<', 'gte': '>=', 'lte': '<
 AR_TXT = {'add': '+', 'sub': '-', 'mul': '*', 'div': '/'}
 BARE_IDENT = re.compile(r'^[A-Za-z_][A-Za-z0-9_]*$')
 # bare identifiers that the expression grammar would read as something else
-RESERVED_PREFIX = ('true', 'false', 'null', 'if')
+RESERVED_NAMES = ('true', 'false', 'null')     # literals; every other identifier can be written bare (keywords are whole words since dd26194)
 
 
 def f2bits(x):
@@ -168,7 +168,7 @@ def quote_str(s, q='"'):
 
 
 def ident_text(name):
-    if BARE_IDENT.match(name) and not name.startswith(RESERVED_PREFIX):
+    if BARE_IDENT.match(name) and name not in RESERVED_NAMES:
         return name
     return '[' + quote_str(name) + ']'
 
